@@ -8,6 +8,7 @@ package main
 //	set:<T>.<f>          assignment to a field of a tracked struct
 //	use:<T>.<f>          read of a field of a tracked struct
 //	go:<name>            go statement
+//	local:<v>=<kind>     (receive loops only) assignment to the local byte slice v; kind: make, slice:<x>, <ident>, call, other
 //	return
 //
 // Events inside a function literal carry the suffix @f. The models' structural parameters
@@ -26,6 +27,10 @@ import (
 
 var shapeStructs = map[string]bool{"Srv": true, "Conn": true, "SrvReq": true, "SrvFid": true, "Clnt": true, "Req": true,
 	"Fid": true, "Logger": true, "ufsFid": true, "Fcall": true, "Ufs": true, "Tag": true}
+
+// functions in which assignments to local byte slices are events too:
+//	local:<name>=<make|slice:<x>|<ident>|call|other>
+var shapeLocals = map[string]bool{"Conn.recv": true, "Clnt.recv": true}
 
 func genShape(repo, out string) {
 	p := load(repo)
@@ -46,6 +51,16 @@ func genShape(repo, out string) {
 				continue
 			}
 			var evs []string
+			fname := fd.Name.Name
+			if fd.Recv != nil && len(fd.Recv.List) == 1 {
+				t := fd.Recv.List[0].Type
+				if st, ok := t.(*ast.StarExpr); ok {
+					t = st.X
+				}
+				if id, ok := t.(*ast.Ident); ok {
+					fname = id.Name + "." + fname
+				}
+			}
 			depth := 0
 			add := func(s string) {
 				if depth > 0 {
@@ -78,6 +93,40 @@ func genShape(repo, out string) {
 							}
 						}
 						ast.Inspect(l, walk)
+					}
+					if shapeLocals[fname] {
+						for i, l := range x.Lhs {
+							id, ok := l.(*ast.Ident)
+							if !ok || id.Name == "_" {
+								continue
+							}
+							obj := p.info.ObjectOf(id)
+							v, ok := obj.(*types.Var)
+							if !ok || v.IsField() || v.Parent() == nil || v.Parent() == v.Pkg().Scope() {
+								continue
+							}
+							if sl, ok := v.Type().Underlying().(*types.Slice); !ok || sl.Elem().String() != "byte" && sl.Elem().String() != "uint8" {
+								continue
+							}
+							kind := "other"
+							if len(x.Lhs) == len(x.Rhs) {
+								switch r := x.Rhs[i].(type) {
+								case *ast.CallExpr:
+									if f, ok := r.Fun.(*ast.Ident); ok && f.Name == "make" {
+										kind = "make"
+									} else {
+										kind = "call"
+									}
+								case *ast.SliceExpr:
+									if b, ok := r.X.(*ast.Ident); ok {
+										kind = "slice:" + b.Name
+									}
+								case *ast.Ident:
+									kind = r.Name
+								}
+							}
+							add("local:" + id.Name + "=" + kind)
+						}
 					}
 					return false
 				case *ast.IncDecStmt:
